@@ -222,7 +222,13 @@ class Prerequisite:
         self._cached_satisfied = None
         if '|' in expr:
             # Make a Python expression so we can eval() the logic.
-            for t_output in self._satisfied:
+            # Substitute longer messages first in case one message is
+            # contained in another (e.g. "1/a succeeded" in "-1/a succeeded").
+            for t_output in sorted(
+                self._satisfied,
+                key=lambda t_output: len(self.MESSAGE_TEMPLATE % t_output),
+                reverse=True,
+            ):
                 # Use '\b' in case one task name is a substring of another
                 # and escape special chars ('.', timezone '+') in task IDs.
                 msg = self.MESSAGE_TEMPLATE % t_output
